@@ -81,7 +81,8 @@ CLAIMED = {
          'ids), every device WRTE acknowledged by exactly one OKAY carrying that stream\'s local and remote ids, stream sends carry the stream\'s ids and at most maxdata '
          'bytes, a host write is split into chunks <= maxdata that concatenate to the data, one WRTE in flight (a write while an OKAY is outstanding is refused and '
          'an unacknowledged WRTE stays recorded), received WRTE data is buffered exactly once in order, maxdata is the value the device announced; '
-         'read_for_stream: per-call reader rules (see note)',
+         'read_for_stream: per-call reader rules (see note); every message waiting in a stream queue, and whatever read_for_stream returns, is an intact '
+         'OKAY / CLSE / WRTE packet (queue invariant carried through enqueue_message and the routing)',
          'AdbConnection.read_for_stream is verified for one caller at a time (queued messages are delivered first and in order, at most one message is taken per call, a '
          'closed stream still delivers what was queued for it, AdbStreamClosedError only for an unregistered stream with an empty queue, wire frames are read only '
          'while holding the connection reader lock, locks balanced on every exit), with queue.Queue modelled as (items, head), the caller view of read_message '
